@@ -1,5 +1,5 @@
 (* C18 — scalar encodings and helper conversions are exact inverses over their domain. *)
-From PyUbx Require Import Base Bytes PyFloat Types Strs Fletcher Helpers Consts Bytes_lemmas Fletcher_lemmas Codec_lemmas Helper_lemmas.
+From PyUbx Require Import Base Bytes PyFloat Types Strs Fletcher Helpers Consts Bytes_lemmas Fletcher_lemmas Codec_lemmas Helper_lemmas R4_lemmas.
 Open Scope Z_scope.
 
 (* integer types E, I, L, U of EVERY width (not only those in ubxtypes_core): every in-range value
@@ -43,6 +43,22 @@ Print Assumptions C18_nomval.
 Theorem C18_r8_bits_rt : forall b, 0 <= b < 2 ^ 64 -> canonical_nan_or_not_nan b -> bits_of_b64 (b64_of_bits b) = b.
 Proof. exact r8_bits_rt. Qed.
 Print Assumptions C18_r8_bits_rt.
+
+(* R4 (single precision): struct.unpack("<f") then struct.pack("<f") is the identity on every 32-bit pattern that is
+   not a NaN: the widening to double is exact and the rounding back to single is exact on a value that came from
+   32 bits.  Through Flocq (both conversions are its correctly rounded binary_round); axioms: the four real-number
+   axioms of the standard library. *)
+Theorem C18_r4_bits_rt : forall b, 0 <= b < 2 ^ 32 -> not_nan32 b ->
+  exists g, b32_round (b64_of_b32 (b32_of_bits b)) = Ok g /\ bits_of_b32 g = b.
+Proof. exact r4_bits_rt. Qed.
+Print Assumptions C18_r4_bits_rt.
+
+(* ... and at the codec: bytes2val on an R4 field, then val2bytes' single-precision branch, gives back the 4 bytes *)
+Theorem C18_r4_codec_rt : forall bs, wfb bs -> length bs = 4%nat -> not_nan32 (Z.of_N (uint_of_le bs)) ->
+  exists f, bytes2val bs (T lR (Some 4%nat)) = Ok (PFloat f) /\
+            (exists g, b32_round f = Ok g /\ enc_le 4 (Z.to_N (bits_of_b32 g)) = bs).
+Proof. exact r4_codec_rt. Qed.
+Print Assumptions C18_r4_codec_rt.
 
 (* calc_checksum is the 8-bit Fletcher definition (closed-form sums mod 256), for every byte string *)
 Theorem C18_fletcher_spec : forall bs, fletcher bs = fletcher_spec bs.
